@@ -42,6 +42,13 @@ CLAIMED["C04"] = (
     "DESIGN.md §3 C04",
 )
 
+CLAIMED["C19"] = (
+    "ast rules on draw_params.py (structure of BaseParam.__setattr__/__post_init__ with syntax-directed guard sets, dataclass/field declarations) and on MPRenderer (parameter attribute chains typed against the declared parameter classes, group selection preludes, nullable-result dereference guards via resolved callee annotations, canonicalised time arguments of occupancy queries, the lanelet id filter)",
+    "Decides three structural clauses only. Propagation: an assignment on a group is stored where declared and forwarded unmodified to every nested BaseParam once initialised; __post_init__ switches this on and re-assigns all BaseParam fields; all 22 groups are dataclasses below BaseParam with per-instance nested groups of the declared type. Totality (necessary conditions): all 137 parameter reads in draw_* methods name declared fields of the group type the method selects; every method selects the group of its declared kind from both default and top-level parameters; draw_scenario pairs each obstacle class with its group; possibly-None query results are dereferenced only under a not-None test in the obstacle drawers. Model agreement: the shape drawn is obj.occupancy_at_time(draw_params.time_begin), further occupancies range within [time_begin, time_end); the lanelet loop runs over all lanelets and skips exactly the unselected ids. NOT decided: that drawing completes for every scenario and parameter setting, what matplotlib shows, icons / labels / signals / trajectories.",
+    "Trusts dataclasses semantics, annotations of draw_params parameters and query return types, and that the patches appended are what matplotlib renders.",
+    "DESIGN.md §3 C19",
+)
+
 CLAIMED["C09"] = (
     "ast pairing analysis of Scenario: id paths reserved per add_objects branch vs released per removal form (single/list), containment guards by syntax-directed dominance, ownership (who may drop / touch _id_set), atomic reservation, counter monotonicity",
     "Per-operation invariant argument that covers every history: each add branch reserves the id paths of the object it stores in one all-or-nothing step before storing; each removal form releases exactly those paths and only under a containment guard; only designated functions drop objects or touch the id pool; replacing the network releases the old ids; the counter only grows and generate_object_id folds in max(_id_set). Decided for all 9 object kinds and 5 removal functions.",
